@@ -1,4 +1,5 @@
 import ButlerModel.Driver.C11
+import ButlerModel.Driver.C15
 /-! Line-protocol driver: one request per line on stdin, one reply per line on stdout.
 The first token selects the model. -/
 
@@ -6,6 +7,7 @@ def dispatch (line : String) : String :=
   let toks := (line.splitOn " ").filter (· ≠ "")
   match toks with
   | "ts" :: rest => Driver.C11.handle rest
+  | "pred" :: rest => Driver.C15.handle rest
   | _ => "bad-op"
 
 partial def loop (h : IO.FS.Stream) (out : IO.FS.Stream) : IO Unit := do
